@@ -73,7 +73,7 @@ def build(c):
     elif c["start"] == "empty":
         sf = SMSimfile(string="")
     else:
-        sf = SMSimfile(string=[t for f, t in G.corpus_files() if f.lower().endswith(".sm")][0])
+        sf = SMSimfile(string=max([t for f, t in G.corpus_files() if f.lower().endswith(".sm")], key=len))
     for op in c["ops"]:
         try:
             if op[0] == "ser":
